@@ -9,6 +9,13 @@ Arguments c_ulong : simpl never.
 Arguments c_int : simpl never.
 Arguments Qfloor : simpl never.
 
+(* the guarded step delay of a sweep is the plain quotient once the count is clamped at 0 (x / 0 = 0 in Z) *)
+Lemma step_delay_of_max total k : step_delay_of total (Z.max 0 k) = total / Z.max 0 k.
+Proof.
+  unfold step_delay_of. destruct (0 <? Z.max 0 k) eqn:E; [reflexivity|].
+  apply Z.ltb_ge in E. replace (Z.max 0 k) with 0 by lia. symmetry. apply Zdiv_0_r.
+Qed.
+
 (* ------------------------------------------------------------------ comparisons *)
 Lemma qlt_true a b : qlt a b = true <-> (a < b)%Q.
 Proof.
@@ -367,13 +374,13 @@ Proof.
     rewrite sounding_from_app, last_tone_from_app. cbn [sounding_from last_tone_from].
     apply inv_quiet. apply (inv_lastok _ _ _ _ Hl).
   - (* sweep *)
-    unfold sweep.
-    pose proof (sweep_loop_inv d pin (clamp0 s) (clamp0 e) (Z.max 1 (c_int steps))
-                  (c_ulong dq / Z.max 1 (c_int steps))
-                  (Z.to_nat (Z.max 1 (c_int steps))) 0 st b lt H) as Hl.
-    destruct (sweep_loop pin (clamp0 s) (clamp0 e) (Z.max 1 (c_int steps))
-                (c_ulong dq / Z.max 1 (c_int steps))
-                (Z.to_nat (Z.max 1 (c_int steps))) 0 st) as [st1 e1] eqn:El.
+    unfold sweep. rewrite step_delay_of_max.
+    pose proof (sweep_loop_inv d pin (clamp0 s) (clamp0 e) (Z.max 0 (c_int steps))
+                  (c_ulong dq / Z.max 0 (c_int steps))
+                  (Z.to_nat (Z.max 0 (c_int steps))) 0 st b lt H) as Hl.
+    destruct (sweep_loop pin (clamp0 s) (clamp0 e) (Z.max 0 (c_int steps))
+                (c_ulong dq / Z.max 0 (c_int steps))
+                (Z.to_nat (Z.max 0 (c_int steps))) 0 st) as [st1 e1] eqn:El.
     cbn [fst snd] in *.
     rewrite sounding_from_app, last_tone_from_app. cbn [sounding_from last_tone_from].
     apply inv_quiet. apply (inv_lastok _ _ _ _ Hl).
@@ -461,10 +468,10 @@ Proof.
     cbn [dstep].
   - unfold play_tone. destruct (qle (clamph f) q0); reflexivity.
   - unfold beep. destruct (beep_loop _ _ _ _ _ _) as [st1 e1]. reflexivity.
-  - unfold sweep.
-    destruct (sweep_loop pin (clamp0 s) (clamp0 e) (Z.max 1 (c_int steps))
-                (c_ulong dq / Z.max 1 (c_int steps))
-                (Z.to_nat (Z.max 1 (c_int steps))) 0 st) as [st1 e1].
+  - unfold sweep. rewrite step_delay_of_max.
+    destruct (sweep_loop pin (clamp0 s) (clamp0 e) (Z.max 0 (c_int steps))
+                (c_ulong dq / Z.max 0 (c_int steps))
+                (Z.to_nat (Z.max 0 (c_int steps))) 0 st) as [st1 e1].
     reflexivity.
   - unfold melody. cbn in Hg. destruct (tlookup name tbl) as [[t0 seq]|]; [|discriminate].
     destruct seq as [|x r]; [discriminate|]. apply melody_loop_state. congruence.
@@ -557,14 +564,14 @@ Proof.
       destruct (beep_loop_nonpos p t on' off' k s0 (clamph_nonpos _ H)) as [Ht Hl];
       destruct (beep_loop p t on' off' k s0) as [st1 e1] end.
     cbn [fst snd quiet b_last] in *. rewrite tones_app, Ht. cbn. split; [reflexivity|exact Hl].
-  - unfold sweep. apply andb_true_iff in H as [Hs He].
-    destruct (sweep_loop_nonpos pin (clamp0 s) (clamp0 e) (Z.max 1 (c_int steps))
-                (c_ulong dq / Z.max 1 (c_int steps))
-                (Z.to_nat (Z.max 1 (c_int steps))) 0 st
+  - unfold sweep. rewrite step_delay_of_max. apply andb_true_iff in H as [Hs He].
+    destruct (sweep_loop_nonpos pin (clamp0 s) (clamp0 e) (Z.max 0 (c_int steps))
+                (c_ulong dq / Z.max 0 (c_int steps))
+                (Z.to_nat (Z.max 0 (c_int steps))) 0 st
                 (clamp0_nonpos_eq0 s Hs) (clamp0_nonpos_eq0 e He)) as [Ht Hl].
-    destruct (sweep_loop pin (clamp0 s) (clamp0 e) (Z.max 1 (c_int steps))
-                (c_ulong dq / Z.max 1 (c_int steps))
-                (Z.to_nat (Z.max 1 (c_int steps))) 0 st) as [st1 e1].
+    destruct (sweep_loop pin (clamp0 s) (clamp0 e) (Z.max 0 (c_int steps))
+                (c_ulong dq / Z.max 0 (c_int steps))
+                (Z.to_nat (Z.max 0 (c_int steps))) 0 st) as [st1 e1].
     cbn [fst snd] in *. rewrite tones_app, Ht. cbn. split; [reflexivity|exact Hl].
 Qed.
 
@@ -667,13 +674,13 @@ Section EventInvariant.
         pose proof (beep_loop_all t on' off' k s0) as Hl;
         destruct (beep_loop p t on' off' k s0) as [st1 e1] end.
       cbn [fst snd] in *. fa.
-    - unfold sweep.
-      pose proof (sweep_loop_all (clamp0 s) (clamp0 e) (Z.max 1 (c_int steps))
-                   (c_ulong dq / Z.max 1 (c_int steps))
-                   (Z.to_nat (Z.max 1 (c_int steps))) 0 st) as Hl.
-      destruct (sweep_loop pin (clamp0 s) (clamp0 e) (Z.max 1 (c_int steps))
-                  (c_ulong dq / Z.max 1 (c_int steps))
-                  (Z.to_nat (Z.max 1 (c_int steps))) 0 st) as [st1 e1].
+    - unfold sweep. rewrite step_delay_of_max.
+      pose proof (sweep_loop_all (clamp0 s) (clamp0 e) (Z.max 0 (c_int steps))
+                   (c_ulong dq / Z.max 0 (c_int steps))
+                   (Z.to_nat (Z.max 0 (c_int steps))) 0 st) as Hl.
+      destruct (sweep_loop pin (clamp0 s) (clamp0 e) (Z.max 0 (c_int steps))
+                  (c_ulong dq / Z.max 0 (c_int steps))
+                  (Z.to_nat (Z.max 0 (c_int steps))) 0 st) as [st1 e1].
       cbn [fst snd] in *. fa.
     - unfold melody. destruct (tlookup name tbl) as [[t0 seq]|]; [|constructor].
       apply melody_loop_all.
@@ -977,16 +984,16 @@ Qed.
 
 Lemma sweep_tones pin tbl st s e d steps :
   tones (snd (dstep pin tbl st (Sweep s e d steps))) =
-  map tone_of (positives (sweep_freqs (clamp0 s) (clamp0 e) (Z.max 1 (c_int steps)))).
+  map tone_of (positives (sweep_freqs (clamp0 s) (clamp0 e) (Z.max 0 (c_int steps)))).
 Proof.
-  cbn [dstep]. unfold sweep, sweep_freqs.
-  pose proof (sweep_loop_tones pin (clamp0 s) (clamp0 e) (Z.max 1 (c_int steps))
-               (c_ulong d / Z.max 1 (c_int steps))
-               (Z.to_nat (Z.max 1 (c_int steps))) 0%nat st) as Hl.
+  cbn [dstep]. unfold sweep, sweep_freqs. rewrite step_delay_of_max.
+  pose proof (sweep_loop_tones pin (clamp0 s) (clamp0 e) (Z.max 0 (c_int steps))
+               (c_ulong d / Z.max 0 (c_int steps))
+               (Z.to_nat (Z.max 0 (c_int steps))) 0%nat st) as Hl.
   change (Z.of_nat 0) with 0 in Hl.
-  destruct (sweep_loop pin (clamp0 s) (clamp0 e) (Z.max 1 (c_int steps))
-              (c_ulong d / Z.max 1 (c_int steps))
-              (Z.to_nat (Z.max 1 (c_int steps))) 0 st) as [st1 e1].
+  destruct (sweep_loop pin (clamp0 s) (clamp0 e) (Z.max 0 (c_int steps))
+              (c_ulong d / Z.max 0 (c_int steps))
+              (Z.to_nat (Z.max 0 (c_int steps))) 0 st) as [st1 e1].
   cbn [fst snd] in *. rewrite tones_app, Hl. cbn. rewrite app_nil_r. reflexivity.
 Qed.
 
@@ -1174,25 +1181,26 @@ Proof.
   rewrite !delay_sum_app, Hs, IH. lia.
 Qed.
 
-Lemma step_delay_bound total n : 0 <= total -> 1 <= n ->
+Lemma step_delay_bound total n : 0 <= total -> 0 <= n ->
   n * delay_sum (dl (total / n)) <= total.
 Proof.
-  intros Ht Hn. unfold dl. destruct (0 <? total / n).
+  intros Ht Hn. assert (Hc : n = 0 \/ 1 <= n) by lia. destruct Hc as [Hz|Hp]; [subst n; lia|].
+  unfold dl. destruct (0 <? total / n).
   - unfold delay_sum. cbn. rewrite Z.add_0_r. apply Z.mul_div_le. lia.
   - unfold delay_sum. cbn. lia.
 Qed.
 
 Lemma sweep_delay_sum pin tbl st s e d steps :
   delay_sum (snd (dstep pin tbl st (Sweep s e d steps))) =
-  Z.max 1 (c_int steps) * delay_sum (dl (c_ulong d / Z.max 1 (c_int steps))).
+  Z.max 0 (c_int steps) * delay_sum (dl (c_ulong d / Z.max 0 (c_int steps))).
 Proof.
-  cbn [dstep]. unfold sweep.
-  pose proof (sweep_loop_delays pin (clamp0 s) (clamp0 e) (Z.max 1 (c_int steps))
-               (c_ulong d / Z.max 1 (c_int steps))
-               (Z.to_nat (Z.max 1 (c_int steps))) 0 st) as Hl.
-  destruct (sweep_loop pin (clamp0 s) (clamp0 e) (Z.max 1 (c_int steps))
-              (c_ulong d / Z.max 1 (c_int steps))
-              (Z.to_nat (Z.max 1 (c_int steps))) 0 st) as [st1 e1].
+  cbn [dstep]. unfold sweep. rewrite step_delay_of_max.
+  pose proof (sweep_loop_delays pin (clamp0 s) (clamp0 e) (Z.max 0 (c_int steps))
+               (c_ulong d / Z.max 0 (c_int steps))
+               (Z.to_nat (Z.max 0 (c_int steps))) 0 st) as Hl.
+  destruct (sweep_loop pin (clamp0 s) (clamp0 e) (Z.max 0 (c_int steps))
+              (c_ulong d / Z.max 0 (c_int steps))
+              (Z.to_nat (Z.max 0 (c_int steps))) 0 st) as [st1 e1].
   cbn [fst snd] in *. rewrite delay_sum_app, Hl. unfold delay_sum at 2. cbn. rewrite Z2Nat.id by lia. lia.
 Qed.
 
@@ -1201,7 +1209,7 @@ Proof. induction l as [|a l IH]; cbn; [lia|]. destruct (f a); cbn; lia. Qed.
 
 (* C16_sweep *)
 Lemma sweep_protocol : forall pin tbl st s e d steps,
-  let n := Z.max 1 (c_int steps) in
+  let n := Z.max 0 (c_int steps) in
   let tr := snd (dstep pin tbl st (Sweep s e d steps)) in
   (* the tones are the audible ones among the n interpolated frequencies, in order *)
   tones tr = map tone_of (positives (sweep_freqs (clamp0 s) (clamp0 e) n)) /\
@@ -1216,7 +1224,7 @@ Lemma sweep_protocol : forall pin tbl st s e d steps,
   ((clamp0 e <= clamp0 s)%Q -> StronglySorted Z.ge (tones tr)) /\
   (* first = start when steps > 1; last = end *)
   (1 < n -> qle qhalf s = true -> hd 0 (tones tr) = tone_of s) /\
-  (qle qhalf e = true -> last (tones tr) 0 = tone_of e) /\
+  (1 <= n -> qle qhalf e = true -> last (tones tr) 0 = tone_of e) /\
   (* the delays never add up to more than the given duration - any duration: the step delay is an integer
      quotient, and a negative duration counts as zero *)
   (delay_sum tr <= Z.max 0 (Qfloor d) /\ (qle q0 d = true -> (inject_Z (delay_sum tr) <= d)%Q)) /\
@@ -1224,9 +1232,12 @@ Lemma sweep_protocol : forall pin tbl st s e d steps,
   sounding_from true tr = false.
 Proof.
   intros pin tbl st s e d steps n tr.
-  assert (Hn : 1 <= n) by (subst n; lia).
+  assert (Hn0 : 0 <= n) by (subst n; lia).
   assert (Ht : tones tr = map tone_of (positives (sweep_freqs (clamp0 s) (clamp0 e) n)))
     by (apply sweep_tones).
+  assert (Hz : n = 0 -> tones tr = []).
+  { intro Hz. rewrite Ht, Hz. reflexivity. }
+  assert (Hcase : n = 0 \/ 1 <= n) by lia.
   assert (Hc0 : forall x, qle qhalf x = true -> clamp0 x = x).
   { intros x Hx. apply clamp0_pos. apply qhalf_pos. exact Hx. }
   split; [exact Ht|]. split.
@@ -1238,30 +1249,33 @@ Proof.
     apply in_map_iff in Hin as (i & Hfq & _). subst fq. unfold sweep_freq in *.
     apply tone_of_ge1. apply (clamph_pos_half _ Hp). }
   split.
-  { intros Hs He. rewrite Ht, (Hc0 s Hs), (Hc0 e He).
+  { intros Hs He. destruct Hcase as [Hz0|Hn]; [rewrite (Hz Hz0), Hz0; split; reflexivity|].
+    rewrite Ht, (Hc0 s Hs), (Hc0 e He).
     rewrite positives_all by (apply sweep_freqs_all_pos; try apply qle_true; assumption).
     split; [reflexivity|]. rewrite map_length. apply sweep_freqs_length. }
   split.
-  { intro Hse. rewrite Ht. apply sweep_tones_sorted. intros i j Hij.
+  { intro Hse. destruct Hcase as [Hz0|Hn]; [rewrite (Hz Hz0); constructor|].
+    rewrite Ht. apply sweep_tones_sorted. intros i j Hij.
     apply tone_of_mono. apply sweep_freq_up; [exact Hse|exact Hn|lia]. }
   split.
-  { intro Hse. rewrite Ht. apply sweep_tones_sorted. intros i j Hij.
+  { intro Hse. destruct Hcase as [Hz0|Hn]; [rewrite (Hz Hz0); constructor|].
+    rewrite Ht. apply sweep_tones_sorted. intros i j Hij.
     apply Z.le_ge. apply tone_of_mono. apply sweep_freq_down; [exact Hse|exact Hn|lia]. }
   split.
   { intros H1 Hs. rewrite Ht. rewrite (Hc0 s Hs).
     rewrite (sweep_first_tone s (clamp0 e) n H1); rewrite (clamph_ge s Hs); [reflexivity|apply qhalf_pos; exact Hs]. }
   split.
-  { intro He. rewrite Ht. rewrite (Hc0 e He).
+  { intros Hn He. rewrite Ht. rewrite (Hc0 e He).
     rewrite (sweep_last_tone (clamp0 s) e n Hn); rewrite (clamph_ge e He); [reflexivity|apply qhalf_pos; exact He]. }
   split.
   { assert (Hb : delay_sum tr <= Z.max 0 (Qfloor d)).
-    { subst tr. rewrite sweep_delay_sum, <- c_ulong_max. apply step_delay_bound; [apply c_ulong_ge0|exact Hn]. }
+    { subst tr. rewrite sweep_delay_sum, <- c_ulong_max. apply step_delay_bound; [apply c_ulong_ge0|exact Hn0]. }
     split; [exact Hb|]. intro Hd. destruct (c_ulong_nonneg d Hd) as [_ Hp].
     eapply Qle_trans; [|apply Qfloor_le]. rewrite <- Zle_Qle. lia. }
-  subst tr. cbn [dstep]. unfold sweep.
-  destruct (sweep_loop pin (clamp0 s) (clamp0 e) (Z.max 1 (c_int steps))
-              (c_ulong d / Z.max 1 (c_int steps))
-              (Z.to_nat (Z.max 1 (c_int steps))) 0 st) as [st1 e1].
+  subst tr. cbn [dstep]. unfold sweep. rewrite step_delay_of_max.
+  destruct (sweep_loop pin (clamp0 s) (clamp0 e) (Z.max 0 (c_int steps))
+              (c_ulong d / Z.max 0 (c_int steps))
+              (Z.to_nat (Z.max 0 (c_int steps))) 0 st) as [st1 e1].
   cbn [snd]. rewrite sounding_from_app. reflexivity.
 Qed.
 
@@ -1271,15 +1285,25 @@ Lemma sweep_negative_duration : forall pin tbl st s e d steps,
 Proof.
   intros pin tbl st s e d steps Hd. rewrite sweep_delay_sum.
   rewrite c_ulong_nonpos by (apply qle_true; apply Qlt_le_weak; exact Hd).
-  rewrite Z.div_0_l by lia. cbn. lia.
+  rewrite Zdiv_0_l. cbn. lia.
 Qed.
 
-(* steps <= 0 is clamped to 1: one tone is played although `steps` says none *)
-Lemma sweep_nonpositive_steps_refuted :
-  exists pin tbl st s e d steps,
-    c_int steps <= 0 /\
-    length (tones (snd (dstep pin tbl st (Sweep s e d steps)))) = 1%nat.
+(* formerly sweep_nonpositive_steps_refuted (steps <= 0 was clamped to 1 and sounded the end frequency): a sweep
+   of no steps plays no tone and does not wait - it only silences the pin *)
+Lemma sweep_nonpositive_steps : forall pin tbl st s e d steps,
+  c_int steps <= 0 ->
+  dstep pin tbl st (Sweep s e d steps) = (quiet st, [NoTone pin]).
 Proof.
-  exists 8, [], (init (Qmake 440 1)), (Qmake 440 1), (Qmake 880 1), (Qmake 50 1), (Qmake 0 1).
-  vm_compute. split; [discriminate|reflexivity].
+  intros pin tbl st s e d steps H. cbn [dstep]. unfold sweep.
+  replace (Z.max 0 (c_int steps)) with 0 by lia. reflexivity.
+Qed.
+
+(* and for every count the number of tones is at most, with audible ends exactly, max(0, trunc steps) *)
+Lemma sweep_tone_count : forall pin tbl st s e d steps,
+  qle qhalf s = true -> qle qhalf e = true ->
+  length (tones (snd (dstep pin tbl st (Sweep s e d steps)))) = Z.to_nat (c_int steps).
+Proof.
+  intros pin tbl st s e d steps Hs He.
+  destruct (sweep_protocol pin tbl st s e d steps) as (_ & _ & _ & H & _).
+  destruct (H Hs He) as [_ Hl]. rewrite Hl. lia.
 Qed.
